@@ -31,4 +31,15 @@ CLAIMED = {
   "text": "Sound static decision of: every rate division guarded by growth>0 and a positive divisor with the 0 branch, started-guard on all 8 getters, identical unit scaling among sibling getters, per-window formula ingredients and state updates. Numerical equality over histories is not decided.",
   "note": "Trusts float64 arithmetic on positive finite operands.",
  },
+
+ "C08": {
+  "technique": "error-flow analysis over SSA (sources, carriers, checked/preserved/exclusive/complete obligations via dominator guards), who-may-call rule on transport readers, shape check of the errors package",
+  "text": "Sound static decision that every transport-primitive call site in rtmp and flv, and every call to a function carrying such errors, tests its error and returns that very error (possibly wrapped by this repository's errors package) on the failure branch, with zero items beside it; items are returned only on success/complete guards; the errors package preserves cause and message chain. Cut offsets and fault indices are not enumerated: each lands on one of the enumerated sites.",
+  "note": "Trusts io/bufio/encoding/binary error behaviour.",
+ },
+ "C17": {
+  "technique": "constant evaluation of the marker tables, guard/dominator facts and term decomposition of the split function's results, constant-reachability necessary condition for escape handling",
+  "text": "Sound static decision of three structural clauses: the marker tables contain the JSON-relevant tuples, a region is passed whole or dropped whole with the exact consumed length, and the string-end computation examines backslashes (necessary condition only). Semantic transparency over all documents and segmentations is not decided.",
+  "note": "Trusts bufio.Scanner's split-function contract and encoding/json.",
+ },
 }
